@@ -1227,9 +1227,8 @@ def worker(args):
             cnt("cases_volume_varies")
         if case["nt"] > 1:
             cnt("cases_nt_gt_1")
-        counters["min_margin_to_bin_edge_e9"] = min(
-            counters.get("min_margin_to_bin_edge_e9", 10 ** 9),
-            int(min(info["min_margin"], 1.0) * 1e9))
+        if info["min_margin"] < 10 * EDGE_BAND:
+            cnt("cases_with_a_value_within_1e-5_of_a_bin_edge")
         for (key, what, det) in J.fail:
             vcount[key] = vcount.get(key, 0) + 1
             cnt("violations_" + key)
@@ -1250,9 +1249,6 @@ def worker(args):
                 s["observed_max"] = [float(gx[k]), float(gy[k])] if gy.size else []
             samples.append(s)
         shutil.rmtree(wd, ignore_errors=True)
-    if "min_margin_to_bin_edge_e9" in counters and \
-            counters["min_margin_to_bin_edge_e9"] == 10 ** 9:
-        del counters["min_margin_to_bin_edge_e9"]
     emit({"t": "summary", "evaluations": evals,
           "distinct_nontrivial": len(distinct), "families": fams,
           "counters": counters, "samples": samples})
@@ -1260,6 +1256,8 @@ def worker(args):
 
 def replay(path, args):
     w = json.load(open(path))["witness"]
+    if "files" not in w and "case" in w:      # sanitizer / crash witness
+        w = w["case"]
     case = w["case"]
     case["trj_text"] = w["files"]["traj." + case["fmt"]]
     wd = os.path.join(args["scratch"], "replay")
